@@ -30,6 +30,7 @@ import (
 	"github.com/99designs/gqlgen/graphql/handler"
 	"github.com/99designs/gqlgen/graphql/handler/lru"
 	"github.com/99designs/gqlgen/graphql/handler/transport"
+	legacy "github.com/99designs/gqlgen/handler"
 	"github.com/gorilla/websocket"
 	"github.com/vektah/gqlparser/v2/ast"
 	"github.com/vektah/gqlparser/v2/lexer"
@@ -337,6 +338,57 @@ func (s *server) runWS(id string, payload map[string]any, out *outcome) {
 	out.body = strings.Join(frames, "\n")
 	// the operation goroutine may still be winding down after its complete frame
 	c.WriteMessage(websocket.CloseMessage, websocket.FormatCloseMessage(websocket.CloseNormalClosure, ""))
+}
+
+func legacyStage(probe string) {
+	env := envOf(probe)
+	for n := 1; n <= 3; n++ {
+		var mu sync.Mutex
+		var trace []string
+		log := func(s string) { mu.Lock(); trace = append(trace, s); mu.Unlock() }
+		var opts []legacy.Option
+		for i := 0; i < n; i++ {
+			i := i
+			opts = append(opts, legacy.ResolverMiddleware(func(ctx context.Context, next graphql.Resolver) (any, error) {
+				log(fmt.Sprintf("fieldE%d", i))
+				r, err := next(ctx)
+				log(fmt.Sprintf("fieldX%d", i))
+				return r, err
+			}))
+			opts = append(opts, legacy.RequestMiddleware(func(ctx context.Context, next graphql.ResponseHandler) *graphql.Response {
+				log(fmt.Sprintf("respE%d", i))
+				r := next(ctx)
+				log(fmt.Sprintf("respX%d", i))
+				return r
+			}))
+		}
+		h := legacy.GraphQL(env.ES, opts...)
+		body, _ := json.Marshal(map[string]any{"query": "{ scalarN }"})
+		r := httptest.NewRequest("POST", "/query", strings.NewReader(string(body)))
+		r.Header.Set("Content-Type", "application/json")
+		w := httptest.NewRecorder()
+		h.ServeHTTP(w, r)
+		var want []string
+		for i := 0; i < n; i++ {
+			want = append(want, fmt.Sprintf("respE%d", i))
+		}
+		for i := 0; i < n; i++ {
+			want = append(want, fmt.Sprintf("fieldE%d", i))
+		}
+		for i := n - 1; i >= 0; i-- {
+			want = append(want, fmt.Sprintf("fieldX%d", i))
+		}
+		for i := n - 1; i >= 0; i-- {
+			want = append(want, fmt.Sprintf("respX%d", i))
+		}
+		rep.Count("legacy_entry_point_cases", 1)
+		rep.Count("requests", 1)
+		rep.Count("class_accepted", 1)
+		rep.Distinct("cases", fmt.Sprintf("legacy|%d", n))
+		if got := strings.Join(trace, " "); got != strings.Join(want, " ") || !strings.Contains(w.Body.String(), `"scalarN"`) {
+			rep.Violate("legacy-entry-point-hook-order", map[string]any{"why": fmt.Sprintf("handler.GraphQL with %d ResolverMiddleware and %d RequestMiddleware options: hook sequence [%s], first option outermost gives [%s]", n, n, got, strings.Join(want, " ")), "body": w.Body.String()})
+		}
+	}
 }
 
 // tokensOf counts the lexical tokens of a document with gqlparser's lexer (comments excluded).
@@ -842,6 +894,11 @@ func main() {
 		rep.Distinct("extension_lists", cfg.Exts.String())
 	}
 	lap("websocket_sequential")
+
+	// 4d. the deprecated entry point handler.GraphQL(es, options...): its ResolverMiddleware and
+	// RequestMiddleware options are extensions too, first option outermost
+	legacyStage(probes[0])
+	lap("legacy_entry_point")
 
 	// 4c. the configured parser token limit is part of parsing: a document with more tokens than
 	// the limit is refused like any other unparsable document, one with clearly fewer is served
